@@ -185,6 +185,18 @@ class Check(PropertyCheck):
                 lines.append("mark blind " + bad[3])
                 # (one request in four reaches the dispatcher through DispatchingRuleSolver.step: a user rule names the operation)
                 lines.append(f"{via()} {bad[0]} {bad[1]} {bad[2]}")
+                if quiet and rng.random() < 0.5:
+                    later = [(jj, pp) for jj, job in enumerate(jobs) for pp in range(len(job)) if pp > tr.idx[jj]]
+                    if later and bad[3] != "not_next":
+                        # (one more refused request, for an operation whose turn has not come)
+                        lj, lp = rng.choice(later)
+                        lines.extend(["mark blind not_next", f"disp {lj} {lp} {rng.choice(jobs[lj][lp][0])}"])
+                        n_bad += 1
+                    # ... and the caller installs another filter on the live dispatcher (a public attribute; the multi-instance
+                    # environment does the same) before anything is read: whatever the rejected request computed on its way out
+                    # is not remembered
+                    lines.append("refilt" + gen.filter_line(gen.gen_filter(rng))[6:])
+                    lines.append("q available")
                 bad_kinds.add(bad[3])
                 n_bad += 1
                 return bad + ((alias_follow,) if alias_follow else ())
@@ -289,6 +301,15 @@ class Check(PropertyCheck):
                 if a != b:
                     res.append(("state-changed", f"rejected `{d_line}` changed `{lines[index - 13 + k]}`: before {a} after {b}"))
                     break
+        if line == "q available" and index >= 1 and lines[index - 1].startswith("refilt") and not gen.has_zero(impl.jobs):
+            # the first read after the rejected request and the new filter: the available operations under the filter installed NOW
+            from impl import lst
+            v = oracles.View(impl.instance, impl.dispatcher.schedule.schedule)
+            want = lst(sorted(o.operation_id for o in v.available(impl.filter_tokens)))
+            got = out
+            if sorted(got.strip("[] ").split()) != sorted(want.strip("[] ").split()):
+                res.append(("as-if-never", f"after the rejected `{lines[index - 2]}` and `{lines[index - 1]}` the available operations are "
+                            f"{got}, under the installed filter they are {want}"))
         if line.startswith(("disp", "sstep")) and index >= 1 and lines[index - 1].startswith("mark blind") and out != "raise":
             res.append(("not-rejected", f"invalid request `{line}` ({lines[index - 1][11:]}) did not raise (reply {out})"))
         # at the end: same world as the clean history
